@@ -445,6 +445,8 @@ class World(object):
 
         tr.extra["post"] = post
         src = args[1] if len(args) > 1 else False
+        if mode == "right":  # the explicit alias is the same request: exercised on the mode that names its source
+            return lambda: self.t.move_prefix_to_webentity_from_webentity(p, target, src)
         return lambda: self.t.move_prefix_to_webentity(p, target, src)
 
     # rules ---------------------------------------------------------------
